@@ -55,6 +55,7 @@ def ckey(x):
 
 
 STAGE_OF = {"simulated_anneal_": "Anneal", "slice_": "Slice", "slice_and_reconfigure_": "SliceReconf",
+            "windowed_reconfigure_": "CompReconf",
             "subtree_reconfigure_": "Reconf"}
 
 
@@ -347,6 +348,59 @@ def trial_fields(trial):
     }
 
 
+COMPRESSED = ["peak-compressed", "size-compressed", "max-compressed", "flops-compressed", "write-compressed",
+              "combo-compressed"]
+
+
+def compressed_reference(base, chi, tree, inputs, output, size_dict):
+    """figures and raw score of `tree` under the compressed objective `base` at bond dimension
+    `chi`, computed WITHOUT the objective object the optimizer used: a freshly constructed
+    objective with an explicit chi, applied to a tree rebuilt from the path alone and to a copy.
+    returns (figures of the rebuild, raw score, figures of the copy)"""
+    from cotengra import scoring
+    from cotengra.core import ContractionTreeCompressed
+    cls = {"peak-compressed": scoring.CompressedPeakObjective, "size-compressed": scoring.CompressedSizeObjective,
+           "max-compressed": scoring.CompressedSizeObjective, "flops-compressed": scoring.CompressedFlopsObjective,
+           "write-compressed": scoring.CompressedWriteObjective, "combo-compressed": scoring.CompressedComboObjective}[base]
+    t1 = {"tree": ContractionTreeCompressed.from_path(inputs, output, size_dict, path=tree.get_path())}
+    raw = cls(chi=chi)(t1)
+    t2 = {"tree": tree.copy()}
+    cls(chi=chi)(t2)
+    fig = lambda t: {"flops": ckey(t["flops"]), "write": ckey(t["write"]), "size": ckey(t["size"])}
+    return fig(t1), raw, fig(t2)
+
+
+def effective_chi(spec):
+    return spec["chi"] if spec.get("chi") is not None else max(spec["size_dict"].values()) ** 2
+
+
+def fn_probe(spec):
+    """score a fixed tree of a fixed probe network through the objective STRING (the shared,
+    cached objective object): (score, flops, write, size)"""
+    from cotengra.core import ContractionTree, ContractionTreeCompressed
+    from cotengra.scoring import get_score_fn
+    pr = spec["fn_probe"]
+    ins = [tuple(t) for t in pr["inputs"]]
+    cls = ContractionTreeCompressed if spec.get("compressed") else ContractionTree
+    tree = cls.from_path(ins, tuple(pr["output"]), pr["size_dict"], path=[tuple(x) for x in pr["path"]])
+    mz = spec["minimize"]
+    if spec.get("compressed") and spec.get("chi") is not None:
+        mz = "%s-%d" % (mz, spec["chi"])
+    trial = {"tree": tree}
+    sc = get_score_fn(mz)(trial)
+    out = {"score": sc, "flops": ckey(trial.get("flops")), "write": ckey(trial.get("write")), "size": ckey(trial.get("size"))}
+    if spec.get("compressed"):
+        chi = spec["chi"] if spec.get("chi") is not None else max(pr["size_dict"].values()) ** 2
+        ref, raw, ref2 = compressed_reference(spec["minimize"], chi, tree, ins, tuple(pr["output"]), pr["size_dict"])
+        out["ref"] = dict(ref, score=raw)
+        out["ref_copy"] = ref2
+    else:
+        st = ContractionTree.from_path(ins, tuple(pr["output"]), pr["size_dict"], path=[tuple(x) for x in pr["path"]]).contract_stats()
+        val = objective_value(mz, st["flops"], st["write"], st["size"])
+        out["ref"] = {"flops": int(st["flops"]), "write": int(st["write"]), "size": int(st["size"]), "score": val}
+    return out
+
+
 def rebuilt_stats(tree, inputs, output, size_dict):
     """contract_stats of a FRESH tree built from the returned tree's path and sliced indices,
     and the same figures from the independent evaluator (network + nesting alone)"""
@@ -441,10 +495,18 @@ def run_case(spec):
                 optkw["optlib"] = spec["optlib"]
                 if spec["optlib"] == "random":
                     optkw["seed"] = spec["seed"]
-            opt = ctg.HyperOptimizer(methods=spec["methods"], minimize=minimize, max_repeats=spec["max_repeats"],
-                                     max_time=spec.get("max_time"), parallel=parallel,
-                                     on_trial_error=spec["on_trial_error"],
-                                     max_training_steps=spec.get("mts"), **kw, **optkw)
+            if spec.get("fn_probe"):
+                obs["fn_before"] = fn_probe(spec)
+            if spec.get("compressed"):
+                opt = ctg.HyperCompressedOptimizer(chi=spec.get("chi"), methods=tuple(spec["methods"]), minimize=minimize,
+                                                   max_repeats=spec["max_repeats"], max_time=spec.get("max_time"),
+                                                   parallel=parallel, on_trial_error=spec["on_trial_error"],
+                                                   max_training_steps=spec.get("mts"), **kw, **optkw)
+            else:
+                opt = ctg.HyperOptimizer(methods=spec["methods"], minimize=minimize, max_repeats=spec["max_repeats"],
+                                         max_time=spec.get("max_time"), parallel=parallel,
+                                         on_trial_error=spec["on_trial_error"],
+                                         max_training_steps=spec.get("mts"), **kw, **optkw)
             if mode == "scripted":
                 opt.pre_dispatch = spec["pre_dispatch"]
             obs["pre_dispatch"] = getattr(opt, "pre_dispatch", None)
@@ -588,18 +650,62 @@ def run_case(spec):
                 live = {k: int(live[k]) for k in ("flops", "write", "size")}
                 if live != fresh:
                     P.append("returned tree reports %r but a fresh rebuild gives %r" % (live, fresh))
+            else:
+                ref, raw, ref2 = compressed_reference(spec["minimize"], effective_chi(spec), ret, inputs, output, size_dict)
+                obs["rebuilt"] = ref
+                if rec != ref or rec != ref2:
+                    P.append("recorded best costs %r are not the compressed costs of the returned tree at chi=%d: %r "
+                             "(fresh objective on a rebuilt tree) / %r (on a copy)" % (rec, effective_chi(spec), ref, ref2))
+                if not (abs(best["score"] - raw ** 0.75) < 1e-4):
+                    P.append("recorded best score %r is not the score of the returned tree at chi=%d: %r" % (
+                        best["score"], effective_chi(spec), raw ** 0.75))
         except Exception as e:
             P.append("could not rebuild the returned tree: %r" % (e,))
     obs["returned"] = ret is not None
+    if spec.get("fn_probe"):
+        try:
+            obs["fn_after"] = fn_probe(spec)
+        except Exception as e:
+            obs["fn_after"] = {"exc": repr(e)}
+        b4, af = obs.get("fn_before"), obs["fn_after"]
+        if b4 != af:
+            P.append("scoring is not a function of (tree, objective string): the probe tree scored %r before the search and %r after" % (b4, af))
+        for nm, pr in (("before", b4), ("after", af)):
+            if not pr or "ref" not in pr:
+                continue
+            rf = pr["ref"]
+            figs_ok = all(pr[k] == rf[k] for k in ("flops", "write", "size"))
+            sc_ok = rf["score"] is None or abs(pr["score"] - rf["score"]) < 1e-9
+            if not (figs_ok and sc_ok) or ("ref_copy" in pr and any(pr[k] != pr["ref_copy"][k] for k in ("flops", "write", "size"))):
+                P.append("the objective string scores the probe tree %s the search as %r, a freshly built objective gives %r" % (
+                    nm, {k: pr[k] for k in ("score", "flops", "write", "size")}, rf))
+                break
     # every recorded trial row: the figures and the score must be those of the tree that trial
     # KEPT in its dict (rebuilt from scratch + independent evaluation), not of some other tree
     # (a discarded copy, the tree before the last stage ...): the ranking rests on these rows
     nrow = 0
     for t in log:
         tobj = t.get("tree_obj")
-        if tobj is None or t.get("fields") is None or spec.get("compressed"):
+        if tobj is None or t.get("fields") is None:
             continue
         f = t["fields"]
+        if spec.get("compressed"):
+            try:
+                ref, raw, ref2 = compressed_reference(spec["minimize"], effective_chi(spec), tobj, inputs, output, size_dict)
+            except Exception as e:
+                P.append("could not re-score the tree kept by trial %d: %r" % (t["k"], e))
+                continue
+            nrow += 1
+            t["cref"] = [ref["flops"], ref["write"], ref["size"]]
+            rec = {k: f[k] for k in ("flops", "write", "size")}
+            got = struct.unpack(">d", struct.pack(">q", f["score"]))[0] if isinstance(f["score"], int) and f["score"] >= 0 else None
+            if rec != ref or rec != ref2:
+                P.append("trial %d records costs %r but the tree it kept has compressed costs %r at chi=%d (fresh objective, "
+                         "rebuilt tree; on a copy: %r)" % (t["k"], rec, ref, effective_chi(spec), ref2))
+            elif got is not None and not (abs(got - raw ** 0.75) < 1e-4):
+                P.append("trial %d records score %r but the tree it kept scores %r at chi=%d" % (
+                    t["k"], got, raw ** 0.75, effective_chi(spec)))
+            continue
         if f["flops"] is None and f["write"] is None and f["size"] is None:
             continue        # a bare callable objective that records nothing (outside the property)
         try:
@@ -619,6 +725,9 @@ def run_case(spec):
             if got is not None and not (abs(got - val ** 0.75) < 1e-4):
                 P.append("trial %d records score %r but the tree it kept scores %r" % (t["k"], got, val ** 0.75))
     obs["rows_checked"] = nrow
+    for t, ot in zip(log, obs["trials"]):
+        if "cref" in t:
+            ot["cref"] = t["cref"]
     # deterministic methods: every recorded figure can be recomputed from the recorded setting alone
     if spec.get("check_det") and not kw and len(set(obs["lens"])) == 1:
         for j, (m, p) in enumerate(zip(opt.method_choices, opt.param_choices)):
@@ -664,10 +773,15 @@ def worker_main():
 # main side: running the workers
 
 
-def run_specs(specs, nproc=14, per_case=30.0):
-    """returns list of observations (same order); {'hang': True} for a case that did not finish"""
+def run_specs(specs, nproc=14, per_case=30.0, groups=()):
+    """returns list of observations (same order); {'hang': True} for a case that did not finish.
+    groups: lists of indices that must run consecutively in ONE worker process (sequences)"""
     results = [None] * len(specs)
-    batches = [list(range(i, len(specs), nproc)) for i in range(nproc)]
+    grouped = {i for g in groups for i in g}
+    units = [list(g) for g in groups] + [[i] for i in range(len(specs)) if i not in grouped]
+    batches = [[] for _ in range(nproc)]
+    for u, unit in enumerate(units):
+        batches[u % nproc].extend(unit)
     batches = [b for b in batches if b]
 
     def run_batch(idxs):
@@ -754,6 +868,8 @@ def objective_kind(minimize, limit_ensures=False):
         return "(ObjLimit %s)" % ("true" if limit_ensures else "false")
     if minimize == "custom-bare":
         return "ObjCustom"
+    if minimize in COMPRESSED:
+        return "ObjCompressed"
     return "ObjBasic"
 
 
@@ -764,7 +880,9 @@ def pipeline_case(spec, t, limit_ensures=False):
     opts = spec["opts"]
     em = {"warn": "ErrWarn", "raise": "ErrRaise", "ignore": "ErrIgnore"}[spec["on_trial_error"]]
     obj = objective_kind(spec["minimize"], limit_ensures)
-    op = "(mkOpts %s %s %s %s false)" % tuple("true" if k in opts else "false" for k, _ in OPT_STAGES)
+    op = "(mkOpts %s %s %s %s %s)" % (tuple("true" if k in opts else "false" for k, _ in OPT_STAGES)
+                                      + ("true" if spec.get("compressed") else "false",))
+    cref = t.get("cref") or [0, 0, 0]
     versions = []       # stats per version
     posts = []          # per executed stage: ('ok') | 'bad' | 'err'
     base = t["base"]
@@ -803,7 +921,7 @@ def pipeline_case(spec, t, limit_ensures=False):
     if obj == "ObjCustom" and not got_exc and t["fields"]["score"] == "inf" and base not in ("bad", "err") \
             and all(p == "ok" for p in posts):
         custom = "(fun _ => RaiseErr)"
-    lhs = ("(trial_fn nat %s %s (fun _ _ _ => %s) (fun _ => %s) (fun _ => (0,0,0)%%Z) (fun _ _ _ => %s) %s "
+    lhs = ("(trial_fn nat %s %s (fun _ _ _ => %s) (fun _ => %s) (fun _ => " + z3(cref).replace("%", "%%") + ") (fun _ _ _ => %s) %s "
            "(fun x => x) %s %s %s %s)") % (statsf, postf, sc, sc, sc, custom, em, obj, op, b)
     return lhs, rhs
 
@@ -951,6 +1069,11 @@ def make_spec(rng, gen, mode="serial", **over):
     if rng.random() < 0.06:
         spec["on_trial_error"] = "raise"
     spec.update(over)
+    import re
+    if re.fullmatch(r"(flops|size|write|combo)(-\d+)?", spec["minimize"]) and rng.random() < 0.3 and mode in ("serial", "thread"):
+        pi, po, ps = rand_network(rng, gen)
+        spec["fn_probe"] = {"inputs": pi, "output": po, "size_dict": ps,
+                            "path": [list(x) for x in gen.rand_path(rng, len(pi))]}
     return spec
 
 
@@ -1122,6 +1245,50 @@ def run(ctx):
                        slack=[rng.choice([0, 0, 1, 2, 5]) for _ in range(4)], pre_dispatch=rng.randint(0, 6),
                        twin=True, nsearch=1)
         add("scripted%d" % i, sp)
+    # compressed objectives through HyperCompressedOptimizer, as SEQUENCES of searches in one worker
+    # process on contractions whose largest dimension differs (2 then 4 and the reverse), chi='auto'
+    # and explicit; every trial row is re-scored by a freshly built objective with an explicit chi
+    groups = []
+
+    def graph_net(n, d):
+        inputs = [[] for _ in range(n)]
+        edges = [(i, rng.randrange(i)) for i in range(1, n)]
+        for _ in range(rng.randint(2, 4)):
+            a, b = rng.sample(range(n), 2)
+            if (a, b) not in edges and (b, a) not in edges:
+                edges.append((a, b))
+        sd = {}
+        for k, (a, b) in enumerate(edges):
+            ix = gen.SYMS[k]
+            inputs[a].append(ix)
+            inputs[b].append(ix)
+            sd[ix] = d if k == 0 else rng.randint(2, d)
+        return inputs, [], sd
+
+    def probe_net(d):
+        ins, out, sd = graph_net(6, d)
+        return {"inputs": ins, "output": out, "size_dict": sd, "path": [list(x) for x in gen.rand_path(rng, len(ins))]}
+
+    for r in range(ctx.n(1, 5)):
+        for base_obj in COMPRESSED:
+            for order in ((2, 4), (4, 2)):
+                for chi in (None, rng.choice([3, 8, 16])):
+                    if chi is not None and (r + order[0]) % 2:
+                        continue
+                    grp = []
+                    for d in order:
+                        ins, out, sd = graph_net(rng.randint(6, 9), d)
+                        mode = "serial"
+                        if chi is None and r == 0 and base_obj in ("peak-compressed", "flops-compressed") and order == (2, 4):
+                            mode = "thread"
+                        sp = {"inputs": ins, "output": out, "size_dict": sd, "mode": mode, "compressed": True, "chi": chi,
+                              "methods": ["greedy-compressed", "greedy-span"], "minimize": base_obj,
+                              "opts": rng.choice([{}, {}, {"reconf_opts": {"maxiter": 1}}]) if mode == "serial" else {},
+                              "max_repeats": rng.randint(3, 6), "optlib": "random", "seed": rng.randrange(10 ** 6),
+                              "on_trial_error": "ignore", "nsearch": 1, "workers": 2, "fn_probe": probe_net(3)}
+                        add("compressed:%s:chi=%s:d=%d(%s)" % (base_obj, chi, d, "%d->%d" % order), sp)
+                        grp.append(len(specs) - 1)
+                    groups.append(grp)
     # real pools
     for i in range(ctx.n(8, 40)):
         sp = make_spec(rng, gen, mode="thread", methods=rng.choice([["c08det", "c08flaky"], ["c08det"], ["greedy", "c08flaky"]]),
@@ -1151,7 +1318,7 @@ def run(ctx):
     ctx.log("running %d hyper-optimizer searches in worker processes" % len(specs))
     t0 = _time.time()
     pd_spec = {"kind": "predispatch", "nws": list(range(1, 41)) + [rng.randint(41, 3000) for _ in range(20)]}
-    results = run_specs(specs + [pd_spec])
+    results = run_specs(specs + [pd_spec], groups=groups)
     pd_obs = results.pop()
     ctx.log("runs done in %.1fs" % (_time.time() - t0))
     if not pd_obs or "predispatch" not in pd_obs:
@@ -1203,6 +1370,11 @@ def run(ctx):
             feats.add("returned_tree_sliced")
         if spec["optlib"] is None:
             feats.add("default_optlib")
+        if spec.get("compressed"):
+            feats.add("compressed:chi=%s" % ("auto" if spec.get("chi") is None else "explicit"))
+            feats.add("compressed:maxdim=%d" % max(spec["size_dict"].values()))
+        if spec.get("fn_probe"):
+            feats.add("scoring_function_probe")
         for f in feats:
             ctx.count(f)
         ctx.case((label, json.dumps(spec, sort_keys=True)), nontrivial=len(obs["scores"]) >= 2,
@@ -1230,9 +1402,10 @@ def run(ctx):
             continue
         # ---- pipeline: every recorded trial dict against the model's trial_fn
         for t in obs["trials"]:
-            if len(pipe_cases) >= max_pipe:
+            if len(pipe_cases) >= max_pipe and not (spec.get("compressed") or label.startswith("anneal-last")):
                 break
-            want_stages = [st for k, st in OPT_STAGES if k in spec["opts"]]
+            want_stages = [("CompReconf" if (st == "Reconf" and spec.get("compressed")) else st)
+                           for k, st in OPT_STAGES if k in spec["opts"]]
             got_stages = [s["stage"] for s in t["stages"]]
             if got_stages != want_stages[:len(got_stages)] or (
                     t["exc"] is None and t["base"] not in ("bad", "err") and all(isinstance(s["after"], list) for s in t["stages"])
@@ -1248,6 +1421,8 @@ def run(ctx):
             pipe_cases.append(("%s:trial%d" % (label, t["k"]), pc[0], pc[1]))
             pipe_recs.append({"spec": spec, "label": label, "trial": t})
             ctx.count("pipeline_trials")
+            if spec.get("compressed"):
+                ctx.count("pipeline_trials_compressed")
         # ---- the whole run through serial / par
         if not usable and not any(s["exc"] for s in obs["searches"]):
             continue
